@@ -82,6 +82,12 @@ pub fn base_tables() -> Vec<Rel> {
             key: vec!["id".into()],
         },
         Rel { name: "t3".into(), cols: vec![("k".into(), K::I), ("v".into(), K::T), ("n".into(), K::I)], key: vec!["k".into()] },
+        // names that need their quoting: a backtick, a double quote, a blank, a placeholder look-alike
+        Rel {
+            name: "o`d\"t".into(),
+            cols: vec![("id".into(), K::I), ("q`x".into(), K::I), ("w\"y".into(), K::T), ("a ?b".into(), K::I)],
+            key: vec!["id".into()],
+        },
     ]
 }
 
@@ -95,6 +101,8 @@ INSERT INTO t1 VALUES (1,1,2,'x',0.5),(2,1,NULL,'y',1.25),(3,2,2,'',-2.5),(4,NUL
 INSERT INTO t2 VALUES (1,1,10,'p'),(2,1,20,'q'),(3,1,NULL,'p'),(4,2,10,NULL),(5,5,30,'r'),(6,NULL,40,'s'),(7,99,50,'t'),(8,3,0,''),(9,3,10,'q'),(10,3,-5,'p');
 INSERT INTO t3 VALUES (1,'one',1),(2,'two',NULL),(3,NULL,3),(4,'four',7);
 INSERT INTO t4(id) VALUES (1);
+CREATE TABLE \"o`d\"\"t\"(id INTEGER PRIMARY KEY, \"q`x\" INTEGER, \"w\"\"y\" TEXT, \"a ?b\" INTEGER);
+INSERT INTO \"o`d\"\"t\" VALUES (1,1,'p',NULL),(2,NULL,'q',2),(3,2,NULL,2),(4,3,'x',0),(5,1,'',-1);
 ";
 
 impl<'a> Gen<'a> {
@@ -1031,7 +1039,7 @@ impl<'a> Gen<'a> {
     }
 
     fn dml_target(&mut self) -> Rel {
-        base_tables().remove(self.rng.below(3))
+        { let mut b = base_tables(); let n = b.len(); b.remove(self.rng.below(n)) }
     }
 
     pub fn update(&mut self, depth: usize) -> Upd {
